@@ -225,7 +225,7 @@ def write_evidence(rep, spec, exit_violations):
     return path
 
 
-def handle_violation(rep, res, props, known, confirm_real_seeds=False):
+def handle_violation(rep, res, props, known, confirm_real_seeds=False, siblings=()):
     """Confirm in a fresh interpreter, minimise, write the replay file.
 
     Returns the replay path, or None when the candidate needed the set-order
@@ -238,7 +238,7 @@ def handle_violation(rep, res, props, known, confirm_real_seeds=False):
         # addresses (id() of a collected object re-used, id-ordered sets).  Never seen on the unchanged tree
         # (selftest: same plan, many executions, identical transcripts).  Pin the addresses (ASLR off, same
         # fresh-interpreter image) and look for an execution mode in which the plan fails every time.
-        return handle_address_dependent(rep, res, props, known)
+        return handle_address_dependent(rep, res, props, known, siblings)
     small, best = ddmin(plan, props, sig, known)
     if best is None:
         small, best = plan, res
@@ -272,20 +272,41 @@ def handle_violation(rep, res, props, known, confirm_real_seeds=False):
     return path
 
 
-def handle_address_dependent(rep, res, props, known):
+def handle_address_dependent(rep, res, props, known, siblings=()):
     from . import seams
-    plan, sig = res['plan'], res['viol']['sig']
+    sig = res['viol']['sig']
     modes = ([{'setarch': True}] if seams.setarch_available() else []) + [{'setarch': False}]
     chosen, last = None, None
-    for mode in modes:
-        outcomes = []
-        for _ in range(3):
-            r = run_fresh(plan, props, known, setarch=mode['setarch'])
-            outcomes.append(bool(r.get('viol')) and r['viol']['sig'] == sig)
-            last = r if outcomes[-1] else last
-        if all(outcomes):
-            chosen = mode
-            break
+    # the failing run itself first, then other runs of the batch that failed with the same signature: a
+    # fresh interpreter is a deterministic image of its own, some of them fail there every time
+    candidates = [res] + sorted((r for r in siblings if r is not res and r.get('plan')),
+                                key=lambda r: len(r['plan']['events']))[:400]
+    t_search = time.monotonic()
+    import concurrent.futures as cf
+
+    def once(job):
+        cand, mode = job
+        try:
+            r = run_fresh(cand['plan'], props, known, setarch=mode['setarch'])
+        except core.HarnessError:
+            return None
+        return r if r.get('viol') and r['viol']['sig'] == cand['viol']['sig'] else None
+
+    with cf.ThreadPoolExecutor(max_workers=12) as ex:
+        for mode in modes:
+            if time.monotonic() - t_search > 150:
+                break
+            first = list(ex.map(once, [(c, mode) for c in candidates]))
+            for cand, r in zip(candidates, first):
+                if r is None:
+                    continue
+                again = list(ex.map(once, [(cand, mode)] * 3))
+                if all(again):
+                    chosen, res, last = mode, cand, again[-1]
+                    break
+            if chosen:
+                break
+    plan, sig = res['plan'], res['viol']['sig']
     os.makedirs(os.path.join(core.VERIF_DIR, 'replays'), exist_ok=True)
     path = os.path.join(core.VERIF_DIR, 'replays', f'{rep.prop}-{rep.seed}-{plan["run"]}.json')
     small = plan
@@ -365,7 +386,8 @@ def explore(prop, tier, seed, spec):
         seen_sigs.add(sig)
         if len(seen_sigs) > 3:
             break
-        path = handle_violation(rep, r, props, known)
+        path = handle_violation(rep, r, props, known,
+                                siblings=[x for x in results if x.get('viol') and x['viol']['oracle'] == r['viol']['oracle']])
         if path is None:
             continue
         n_viol += 1
